@@ -138,9 +138,12 @@ Definition coerce_scalar (n : str) (v : value) : outcome pv :=
     match v with VBool b _ => Ok (PBool b) | _ => rej K_VALUE end
   else if str_eqb n (S_ "ID") then
     match v with VString s _ _ | VInt s _ => Ok (PStr s) | _ => rej K_VALUE end
-  else (* default_scalar: parse_literal = node.value *)
+  else (* default_scalar: number literals are Python numbers (int(text, 10),
+          float(text)), strings and booleans are their value *)
     match v with
-    | VInt s _ | VFloat s _ | VString s _ _ => Ok (PStr s)
+    | VInt s _ => match Z_of_str s with Some z => Ok (PInt z) | None => rej K_VALUE end
+    | VFloat s _ => Ok (PFloat (float_repr s))
+    | VString s _ _ => Ok (PStr s)
     | VBool b _ => Ok (PBool b)
     | _ => rej K_VALUE
     end.
@@ -616,7 +619,7 @@ Section Validate.
     | TInput _ _ fs _ =>
         match fs with [] => false | _ => true end
         && negb (has_dup (map siv_name fs))
-        && forallb (fun f => s_is_input (siv_type f)) fs
+        && forallb (fun f => valid_name (siv_name f) && s_is_input (siv_type f)) fs
     end.
 
   Definition valid_root (r : option str) : bool :=
